@@ -427,7 +427,9 @@ public:
             {
                 if (applymask && !mask[src_y][src_x])
                     continue;
-                auto scaled_px = src_it[src_x];
+                // a copy of the pixel: for planar views src_it[src_x] is a reference proxy, `auto` kept
+                // the proxy and the division below was written into the source image
+                typename SrcView::value_type scaled_px = src_it[src_x];
                 static_for_each(scaled_px, [&](channel_t& ch) {
                     ch = ch / bin_width;
                 });
